@@ -52,6 +52,12 @@ def gen(ctx):
         L = rng.randint(m + 2, 14)
         gap = rng.choice([1, 1, 2])
         yield dict(kind="ap", u=[base + gap * rng.randint(0, 3) for _ in range(L)], m=m, r=rng.choice([0, 0, 1]), digits=0)
+    # whole numbers of mixed printed width: runs are compared as numbers, never as concatenated text ((1, 11) vs (11, 1))
+    for _ in range(ctx.n(40, 400)):
+        m = rng.choice([1, 1, 2, 3])
+        L = rng.randint(m + 3, 18)
+        alpha = rng.choice([[1, 11], [1, 11, 111], [0, 1, 10, 11], [2, 22, 12, 21, 1], [-1, 1, 11, -11]])
+        yield dict(kind="ap", u=[rng.choice(alpha) for _ in range(L)], m=m, r=rng.choice([0, 0, 1]), digits=0)
     for (L, m) in ([(1100, 3), (2100, 1)] if ctx.tier == "quick" else [(1100, 3), (1500, 2), (2100, 1), (2600, 1), (1300, 4)]):
         # a tail of equal states after a varied head: the match counts of early and late windows differ a lot
         head = [rng.randrange(5) for _ in range(L - L // 8)]
